@@ -45,6 +45,29 @@ type semCanon struct {
 	in  *absint.Interp
 	ops opConsts
 	err string
+	// instruction bits whose value the path has decided
+	bits map[int]int
+}
+
+// pathBits: the instruction bits a path has decided by testing them alone.
+func pathBits(conds []absint.CondRec) map[int]int {
+	out := map[int]int{}
+	for _, cr := range conds {
+		d := cr.Desc
+		if d == nil || !d.OneBit || d.Const != 0 || (d.Op != token.EQL && d.Op != token.NEQ) {
+			continue
+		}
+		isZero := (d.Op == token.EQL) == cr.Outcome
+		if d.Neg {
+			isZero = !isZero
+		}
+		if isZero {
+			out[d.Bit] = 0
+		} else {
+			out[d.Bit] = 1
+		}
+	}
+	return out
 }
 
 func minInt(a, b int) int {
@@ -77,7 +100,136 @@ func (s *semCanon) konst(v absint.Value, k int) string {
 	if iv.Known() {
 		return fmt.Sprintf("k%#x", maskBytes(iv.V, k))
 	}
-	return "imm{" + absint.Ranges(iv.AllDeps()) + "}"
+	deps := absint.Ranges(iv.AllDeps())
+	// every bit a known value or an exact copy of one instruction bit: the
+	// constant is spelled bit by bit (bits above the Go type follow its
+	// signedness, as the constant constructors extend them)
+	if iv.AllDeps()&absint.AddrBit == 0 && iv.Dep != nil && k >= 1 && k <= 8 {
+		tw := 8 * s.in.ByteWidth(iv)
+		tok := make([]string, 8*k)
+		bitTok := func(q int) string {
+			switch {
+			case iv.Unk>>uint(q)&1 == 0:
+				return fmt.Sprint(iv.V >> uint(q) & 1)
+			case iv.Ex>>uint(q)&1 == 1:
+				if src, ok := singleBit(iv.Dep[q]); ok {
+					if v, known := s.bits[src]; known {
+						return fmt.Sprint(v)
+					}
+					return fmt.Sprintf("b%d", src)
+				}
+			}
+			return ""
+		}
+		exact := true
+		for p := range tok {
+			switch {
+			case p < tw:
+				tok[p] = bitTok(p)
+			case s.in.MaybeNegative(iv):
+				tok[p] = bitTok(tw - 1)
+			default:
+				tok[p] = "0"
+			}
+			if tok[p] == "" {
+				exact = false
+			}
+		}
+		if exact {
+			return "imm{" + deps + "|" + renderImmBits(tok) + "}"
+		}
+	}
+	return "imm{" + deps + "}"
+}
+
+func singleBit(d absint.Dep) (int, bool) {
+	if d == 0 || d&(d-1) != 0 {
+		return 0, false
+	}
+	n := 0
+	for d>>1 != 0 {
+		d >>= 1
+		n++
+	}
+	return n, true
+}
+
+// renderImmBits spells a constant given bit by bit ("0", "1", "b<n>": a copy of
+// instruction bit n). The run of equal bits that reaches the top is written
+// open-ended ("11+=b31"), so the spelling does not depend on the width it is
+// looked at as long as the width reaches into that run.
+func renderImmBits(tok []string) string {
+	n := len(tok)
+	t := n - 1
+	for t > 0 && tok[t-1] == tok[n-1] {
+		t--
+	}
+	var segs []string
+	src := func(s string) (int, bool) {
+		if len(s) > 1 && s[0] == 'b' {
+			v := 0
+			fmt.Sscanf(s[1:], "%d", &v)
+			return v, true
+		}
+		return 0, false
+	}
+	for p := 0; p < t; {
+		q := p
+		if b0, isB := src(tok[p]); isB {
+			for q+1 < t {
+				if b1, ok := src(tok[q+1]); ok && b1 == b0+(q+1-p) {
+					q++
+				} else {
+					break
+				}
+			}
+			if q > p {
+				segs = append(segs, fmt.Sprintf("%d-%d=b%d-%d", p, q, b0, b0+q-p))
+			} else {
+				segs = append(segs, fmt.Sprintf("%d=b%d", p, b0))
+			}
+		} else {
+			for q+1 < t && tok[q+1] == tok[p] {
+				q++
+			}
+			if q > p {
+				segs = append(segs, fmt.Sprintf("%d-%d=%s", p, q, tok[p]))
+			} else {
+				segs = append(segs, fmt.Sprintf("%d=%s", p, tok[p]))
+			}
+		}
+		p = q + 1
+	}
+	segs = append(segs, fmt.Sprintf("%d+=%s", t, tok[n-1]))
+	return strings.Join(segs, ",")
+}
+
+// refImm spells an immediate of the reference the same way: segs are (first
+// destination bit, first source bit, count) copies, the bits from `from`
+// upwards are ext ("0" or "b31"), everything else is zero.
+func refImm(known map[int]int, deps string, from int, ext string, segs ...[3]int) string {
+	tok := make([]string, 64)
+	for i := range tok {
+		tok[i] = "0"
+	}
+	for _, sg := range segs {
+		for i := 0; i < sg[2]; i++ {
+			tok[sg[0]+i] = fmt.Sprintf("b%d", sg[1]+i)
+		}
+	}
+	for i := from; i < 64; i++ {
+		tok[i] = ext
+	}
+	for i, t := range tok {
+		if len(t) > 1 && t[0] == 'b' {
+			b := 0
+			fmt.Sscanf(t[1:], "%d", &b)
+			if v, ok := known[b]; ok {
+				tok[i] = fmt.Sprint(v)
+			}
+		}
+	}
+	return "imm{" + deps + "|" + renderImmBits(tok) + "}"
 }
 
 func isImm(s string) bool { return strings.HasPrefix(s, "imm{") }
@@ -179,8 +331,9 @@ func (s *semCanon) canon(v absint.Value, k int) string {
 			return a(0, kk)
 		}
 		inner := a(0, (bit+8)/8)
-		if isImm(inner) {
-			return inner // immediates are compared by their source bits (F2/F8 decide their extension)
+		if isImm(inner) && (bit+1)%8 == 0 {
+			// the spelling of an immediate already continues its top bit upwards
+			return inner
 		}
 		return fmt.Sprintf("sext%d(%s)", bit, inner)
 	case "exprtools.NewWidthGadget":
@@ -266,7 +419,7 @@ func (s *semCanon) effect(t term, ipKey string) string {
 // The reference: RV32/RV64 I, M, A as defined by the unprivileged ISA manual
 // (volume I, 20191213), in the canonical vocabulary. X is XLEN in bytes.
 
-func refSemantics(name string, X int, memKey string) ([]string, bool) {
+func refSemantics(name string, X int, memKey string, known map[int]int) ([]string, bool) {
 	r := func(n string, w int) string { return fmt.Sprintf("%s:%d", n, w) }
 	R1, R2 := r("R1", X), r("R2", X)
 	imm := func(bits string) string { return "imm{" + bits + "}" }
@@ -282,13 +435,16 @@ func refSemantics(name string, X int, memKey string) ([]string, bool) {
 		}
 		return fmt.Sprintf("sext%d(%s)", bit, v)
 	}
-	iImm, sImm, uImm := imm("20-31"), imm("7-11,25-31"), imm("12-31")
+	iImm := refImm(known, "20-31", 11, "b31", [3]int{0, 20, 11})
+	sImm := refImm(known, "7-11,25-31", 11, "b31", [3]int{0, 7, 5}, [3]int{5, 25, 6})
+	uImm := refImm(known, "12-31", 31, "b31", [3]int{12, 12, 19})
 	bTarget, jTarget, pcRel, next := imm("7-11,25-31,addr"), imm("12-31,addr"), imm("12-31,addr"), imm("addr")
 	shamtBits, shiftMask := "20-24", 5
 	if X == 8 {
 		shamtBits, shiftMask = "20-25", 6
 	}
-	shamt := imm(shamtBits)
+	shamt := refImm(known, shamtBits, shiftMask, "0", [3]int{0, 20, shiftMask})
+	zimm := refImm(known, "15-19", 5, "0", [3]int{0, 15, 5})
 	maskR2 := func(w, n int) string { return fmt.Sprintf("mask%d(%s)", n, r("R2", w)) }
 	iAddr := semBin("add", X, true, R1, iImm)
 	sAddr := semBin("add", X, true, R1, sImm)
@@ -305,7 +461,7 @@ func refSemantics(name string, X int, memKey string) ([]string, bool) {
 	// 32-bit forms of RV64: computed on the low words, sign-extended to 64 bits
 	w32 := func(v string) []string { return []string{rd(sext(31, v, X))} }
 	r1w, r2w := r("R1", 4), r("R2", 4)
-	shamtW := imm("20-24")
+	shamtW := refImm(known, "20-24", 5, "0", [3]int{0, 20, 5})
 
 	switch name {
 	case "lui":
@@ -398,11 +554,11 @@ func refSemantics(name string, X int, memKey string) ([]string, bool) {
 	case "csrrc":
 		return []string{rd(r("CSR", X)), csrSt(semBin("and", X, true, r("CSR", X), semBin("not", X, false, R1)))}, true
 	case "csrrwi":
-		return []string{rd(r("CSR", X)), csrSt(imm("15-19"))}, true
+		return []string{rd(r("CSR", X)), csrSt(zimm)}, true
 	case "csrrsi":
-		return []string{rd(r("CSR", X)), csrSt(semBin("or", X, true, r("CSR", X), imm("15-19")))}, true
+		return []string{rd(r("CSR", X)), csrSt(semBin("or", X, true, r("CSR", X), zimm))}, true
 	case "csrrci":
-		return []string{rd(r("CSR", X)), csrSt(semBin("and", X, true, r("CSR", X), semBin("not", X, false, imm("15-19"))))}, true
+		return []string{rd(r("CSR", X)), csrSt(semBin("and", X, true, r("CSR", X), semBin("not", X, false, zimm)))}, true
 	// RV64I word forms
 	case "addiw":
 		return w32(semBin("add", 4, true, r1w, iImm)), X == 8
@@ -527,7 +683,7 @@ func checkSemantics(c *Ctx, ri *rvInfo, k rvConsts) int {
 		key := entryKey(ri, e)
 		pos := c.Prog.Pos(e.Pos)
 		X := ri.xlen(e.Variant) / 8
-		want, ok := refSemantics(e.Name, X, memKey)
+		want, ok := refSemantics(e.Name, X, memKey, nil)
 		if !ok {
 			c.Fail("C01.sem", key, pos, "the table names an instruction that the reference (RV32/RV64 I, M, A) does not define for this variant")
 			n++
@@ -544,7 +700,8 @@ func checkSemantics(c *Ctx, ri *rvInfo, k rvConsts) int {
 			n++
 			continue
 		}
-		sc := &semCanon{in: in, ops: ops}
+		sc := &semCanon{in: in, ops: ops, bits: pathBits(p.Conds)}
+		want, _ = refSemantics(e.Name, X, memKey, sc.bits)
 		var got []string
 		for _, t := range effectsOfPath(p) {
 			got = append(got, sc.effect(t, k.ipKey))
@@ -595,7 +752,8 @@ func checkSemantics(c *Ctx, ri *rvInfo, k rvConsts) int {
 			if !regsNonZero {
 				continue
 			}
-			sq := &semCanon{in: in, ops: ops}
+			sq := &semCanon{in: in, ops: ops, bits: pathBits(q.Conds)}
+			wantQ, _ := refSemantics(e.Name, X, memKey, sq.bits)
 			var gq []string
 			for _, t := range effectsOfPath(q) {
 				gq = append(gq, simplifyCanon(sq.effect(t, k.ipKey)))
@@ -605,9 +763,9 @@ func checkSemantics(c *Ctx, ri *rvInfo, k rvConsts) int {
 			}
 			sort.Strings(gq)
 			var wq []string
-			for _, x := range want {
+			for _, x := range wantQ {
 				for rg := range zeroImms {
-					x = strings.ReplaceAll(x, "imm{"+rg+"}", "k0x0")
+					x = replaceImm(x, rg, "k0x0")
 				}
 				wq = append(wq, simplifyCanon(x))
 			}
@@ -625,6 +783,25 @@ func checkSemantics(c *Ctx, ri *rvInfo, k rvConsts) int {
 		}
 	}
 	return n
+}
+
+// replaceImm replaces every spelling of the immediate decoded from the bits rg.
+func replaceImm(x, rg, by string) string {
+	for {
+		i := strings.Index(x, "imm{"+rg)
+		if i < 0 {
+			return x
+		}
+		rest := x[i+len("imm{"+rg):]
+		if rest == "" || (rest[0] != '}' && rest[0] != '|') {
+			return x
+		}
+		j := strings.IndexByte(rest, '}')
+		if j < 0 {
+			return x
+		}
+		x = x[:i] + by + rest[j+1:]
+	}
 }
 
 // simplifyCanon applies the identities of a zero operand to a canonical term:
